@@ -41,9 +41,10 @@ prop("C05", TV, "Lean 4 model + differential correspondence (proof in progress)"
 prop("C06", TV, "Lean 4 model + differential correspondence (proof in progress)",
      "Record stream of model vs crate on byte soups, mutated files, invalid UTF-8; oracle: resynchronisation at every line break, item count <= bytes, no terminator in any field, bounded-exhaustive over a 9-symbol alphabet.",
      "Model hand-written; tie is differential.", oracle=True)
-prop("C07", TV, "Lean 4 model + differential correspondence (proof in progress)",
-     "Text trace remapping of model vs crate; oracle: with a mapping that knows none of the classes the output is the input with normalised terminators.",
-     "Model hand-written; tie is differential.", oracle=True)
+prop("C07", "proof", "Lean 4 theorems over all inputs and all lookup functions + differential correspondence",
+     "Kernel-checked theorems about remapText rc rf, the one model function behind ProguardMapper::remap_stacktrace and ProguardCache::remap_stacktrace, for every input text and every class/frame lookup: the output is the in-order concatenation of the per-line renderings (first-line rule for line 0, later-line rule otherwise) — no line dropped, duplicated or reordered; each line becomes max(1, #resolved frames) segments, each ending in the one appended newline, by exactly the property's case analysis; with lookups that know nothing the output is the input with normalised terminators; the mapper's frame lookup returns nothing for an unknown class. Tied to both Rust copies by the differential run (generated traces, arbitrary Unicode, CRLF, missing final newline) and by an identity oracle on the implementation.",
+     "remapText never fails in the model; the Rust fmt::Error arm is unreachable when writing into a String (trusted).",
+     theorems=["PG.C07_linewise", "PG.C07_render_cases", "PG.C07_frame_count", "PG.C07_identity", "PG.C07_mapper_unknown", "PG.C07_lines_no_newline"], oracle=True)
 prop("C08", TV, "Lean 4 model + differential correspondence (proof in progress)",
      "Typed trace remapping of model vs crate; oracle on the implementation: depth kept, every throwable remapped or kept, frames replaced or kept, print(typed) == text API on canonical traces.",
      "Model hand-written; tie is differential.", oracle=True)
@@ -78,13 +79,15 @@ prop("C16", "proof", "Lean 4 theorems over the descriptor grammar (all descripto
 prop("C17", TV, "Lean 4 model + differential correspondence (proof in progress)",
      "Parse and Display of traces, frames, throwables: model vs crate; oracle: parse(print t) == t and reprint identical on the implementation.",
      "Model hand-written; tie is differential.", oracle=True)
-prop("C18", "other", "Lean 4 SHA-1/UUIDv5 reference + independent hashlib computation",
-     "UUID of the crate compared with the Lean SHA-1/UUIDv5 model and with an independent hashlib computation on empty, corpus, LF/CRLF and random inputs.",
-     "Partial: the property is a defining equation; the assurance that the crate computes it is differential.",
-     explanation="The specification is the definition of the function; Lean supplies an executable reference and structural theorems, hashlib an independent second opinion.")
-prop("C19", TV, "Lean 4 model + differential correspondence (proof in progress)",
-     "has_line_info / is_valid / summary of model vs crate on files with late evidence, repeated and malformed headers, 49/50/51 leading noise lines.",
-     "Model hand-written; tie is differential.")
+prop("C18", "other", "Lean 4 SHA-1/UUIDv5 reference with structural theorems + independent hashlib computation",
+     "The property is a defining equation, so restating it proves nothing. Lean supplies an executable SHA-1/UUIDv5 reference, kernel-checked structural theorems (definition unfolds to uuidV5(uuidV5(DNS,'guardsquare.com'), bytes); padding is whole 64-byte blocks; digest has 20 bytes; every identifier has 16 bytes with version nibble 5 and variant bits 10), and every run compares the crate's UUID with the Lean reference and with an independent hashlib computation on empty, corpus, LF/CRLF-twin and random inputs.",
+     "Partial: that the crate computes this function is established differentially, not proved.",
+     theorems=["PG.C18_definition", "PG.C18_pad", "PG.C18_sha1_length", "PG.C18_version_variant"],
+     explanation="The specification is the definition of the function; Lean supplies an executable reference and structural theorems (listed as obligations), hashlib an independent second opinion; the tie to the crate is differential.")
+prop("C19", "proof", "Lean 4 theorems over all byte strings + differential correspondence",
+     "Kernel-checked theorems for every byte string: has_line_info is true iff some method record in the stream carries a line mapping; class/method counts equal the numbers of class/method records; compiler, compiler_version and min_api are the values of the last corresponding headers (a later value-less or non-u32 header resets); is_valid is true iff among the first 50 items a class record is followed by a field or method record. The model's folds are tied to the crate's early-exit loops by the differential run (late evidence, repeated/malformed headers, 49/50/51 leading noise lines, corpus).",
+     "The model computes the record list eagerly; that the crate's early-exit loops compute the same answers is what the differential run checks.",
+     theorems=["PG.C19_line_info", "PG.C19_counts", "PG.C19_last_header", "PG.C19_valid"])
 prop("C20", "other", "compile-time Send+Sync assertions + concurrent differential run",
      "The harness instantiates Send+Sync assertions for every public handle and result type (losing one breaks the build and is reported); query batches run on 2..16 threads against one shared mapper/cache must equal the sequential answers, which are tied to the Lean model.",
      "Partial: auto traits and real interleavings are facts about Rust, not expressible in the model.", oracle=True,
